@@ -76,7 +76,12 @@ func main() {
 		sc := bufio.NewScanner(os.Stdin)
 		sc.Buffer(make([]byte, 1<<20), 1<<26)
 		w := bufio.NewWriter(os.Stdout)
+		primeConverters()
+		ncase := 0
 		for sc.Scan() {
+			if ncase++; ncase%97 == 0 {
+				primeConverters()
+			}
 			line := sc.Text()
 			if strings.TrimSpace(line) == "" {
 				continue
